@@ -265,6 +265,31 @@ def run_pool(case):
             res.mon("pool_cancels")
             if any(v in ("RUNNING", "SUBMITTED") for v in st.values()):
                 res.violation("still-live-after-cancel", "local: after cancelling everything states are %s" % st)
+            # ---- the pool is restarted: ids tracked from the previous instance are unknown to the new one.
+            # `gwf cancel stale live`: the stale one cannot be cancelled (reported), the live one must be.
+            pool.restart()
+            stale_names = [n for n in ("a1", "a2")]
+            r = cli.gwf(proj.root, ["run", "never"], env, audit=False)  # 'never' gets a live task in the new pool
+            tid2 = proj.state_files().get("local-backend-tracked.json", {})
+            # make the live task long-running: enqueue another one directly and track it under a2's name is not needed;
+            # 'never' runs `true` and finishes at once, so use a raw long task tracked for target a0
+            live = pool.raw_enqueue("a0", "sleep 30", proj.root, time_limit=None, deps=[])
+            tid2["a0"] = live
+            proj.write_state("local-backend-tracked.json", tid2)
+            pool.wait_states(lambda st: st.get(live) == "RUNNING", timeout=20)
+            # order matters: gwf cancels in the order given by the selection set; name both, stale ones sort around it
+            r = cli.gwf(proj.root, ["cancel", "a1", "a0", "a2"], env, audit=False)
+            pool.wait_states(lambda st: st.get(live) == "CANCELLED", timeout=15)
+            st = pool.states()
+            res.mon("pool_cancels")
+            if r.rc != 0:
+                res.violation("crash", "gwf cancel failed after a pool restart", **cli.crash_witness(r))
+            elif not all(("Target %s could not be cancelled" % n_) in (r.out + r.err) for n_ in ("a1", "a2")):
+                res.violation("uncancellable-not-reported", "local: targets whose task ids the restarted pool does not know were not reported as not cancellable", output=(r.out + r.err)[-500:])
+            elif st.get(live) != "CANCELLED":
+                res.violation("cancel-stopped-early", "local: after a pool restart `gwf cancel a1 a0 a2` (a1, a2 tracked from the old pool instance) left the live task of a0 in state %s: an uncancellable target prevented the others from being cancelled" % st.get(live), output=(r.out + r.err)[-500:], states=st)
+            if not pool.alive():
+                res.violation("crash", "worker pool died", log=pool.read_log()[-500:])
         res.sig = ("local", "pool", case["seed"] % 3)
         res.nontrivial = True
     return res
